@@ -1,9 +1,9 @@
 package main
 
 import (
-	"strings"
 	"go/token"
 	"go/types"
+	"strings"
 
 	"golang.org/x/tools/go/ssa"
 )
@@ -315,12 +315,13 @@ func (c *Ctx) checkNilPaths(br *BR) {
 }
 
 // C01-REFLECT: reflect.Value operations that panic for inputs a script controls, outside the barrier.
-//   (a) Interface() on a Value obtained by a field access (Field, FieldByName, ...): it panics for an
-//       unexported field unless CanInterface() was asked first ((var p (* int64)) (def z p.flag));
-//   (b) a reflected wrapper value (SexpReflect) is built from reflect.ValueOf(x) where x is what a type's
-//       factory returned: a factory may return nil (a slice type whose element type has no Go sample),
-//       and the wrapper then holds the zero Value, on which Type() panics wherever the value is printed,
-//       re-bound or called. The nil case has to be refused where the wrapper is made.
+//
+//	(a) Interface() on a Value obtained by a field access (Field, FieldByName, ...): it panics for an
+//	    unexported field unless CanInterface() was asked first ((var p (* int64)) (def z p.flag));
+//	(b) a reflected wrapper value (SexpReflect) is built from reflect.ValueOf(x) where x is what a type's
+//	    factory returned: a factory may return nil (a slice type whose element type has no Go sample),
+//	    and the wrapper then holds the zero Value, on which Type() panics wherever the value is printed,
+//	    re-bound or called. The nil case has to be refused where the wrapper is made.
 func (c *Ctx) checkReflectUse(br *BR) {
 	reflVal := func(g *ssa.Function, name string) bool {
 		if g == nil || fnPkgPath(g) != "reflect" || g.Name() != name || g.Signature.Recv() == nil {
